@@ -144,10 +144,37 @@ def _short(x, n=1500):
     return s if len(s) <= n else s[:n] + '...'
 
 
+class CaseTimeout(BaseException):
+    """Raised by the per-case watchdog.  Deliberately not an Exception: the oracles' wrappers must not
+    mistake it for an answer of the library."""
+
+
+CASE_LIMIT_S = int(os.environ.get('DXVERIF_CASE_LIMIT', '120'))
+
+
+def _on_alarm(signum, frame):
+    raise CaseTimeout()
+
+
 def run_one(mod, case, rec):
-    """Run one case; an exception escaping the property module is a harness error."""
+    """Run one case; an exception escaping the property module is a harness error.  A case that runs
+    longer than CASE_LIMIT_S (a hang in the code under test, e.g. a loop over an astronomically long
+    span) is abandoned and counted as inconclusive - never as a violation."""
+    import signal
     rec.begin(case)
-    nt = mod.run_case(case, rec)
+    use_alarm = hasattr(signal, 'SIGALRM')
+    if use_alarm:
+        signal.signal(signal.SIGALRM, _on_alarm)
+        signal.alarm(CASE_LIMIT_S)
+    try:
+        nt = mod.run_case(case, rec)
+    except CaseTimeout:
+        rec.note('case abandoned after %d s (inconclusive)' % CASE_LIMIT_S)
+        rec._fails = []
+        nt = False
+    finally:
+        if use_alarm:
+            signal.alarm(0)
     sample = None
     if isinstance(nt, tuple):
         nt, sample = nt
